@@ -112,3 +112,12 @@ def mutate(rng, s):
 def garbage(rng, n):
     alpha = "[]()UOXuox∧∨⊻0123456789P.B \t\nMSKabc-_,;ſK٣１" + META
     return "".join(rng.choice(alpha) for _ in range(n))
+
+
+def regression_strings():
+    """corpus/strings.json: strings on which a past (seeded) defect showed; they run first"""
+    import json
+    import os
+
+    path = os.path.join(os.path.dirname(os.path.dirname(os.path.abspath(__file__))), "corpus", "strings.json")
+    return [x for x in json.load(open(path, encoding="utf-8")) if isinstance(x, str)] if os.path.exists(path) else []
